@@ -277,6 +277,13 @@ def corner_programs():
               "stmts": [["assign", "sync", ["slice", sg("r0", 4, True), 2, 4], sg("i0", 2)],
                         ["assign", "comb", ["slice", sg("c0", 4, True), 3, 4], ["index", sg("i1", 2), 1]],
                         ["if", [[["index", sg("i1", 2), 0], [["assign", "comb", ["slice", sg("c0", 4, True), 0, 2], sg("i0", 2)]]]], None]]})
+    # 11. a slice of a concatenation of three and four parts as a target (comb and sync): bits 3..10 / 2..11 of the parts
+    P.append({"signals": {"i0": [4, False, 0, "in"], "i1": [4, True, 0, "in"], "c0": [4, False, 1, "comb"], "c1": [4, False, 2, "comb"], "c2": [4, True, 3, "comb"],
+                          "r0": [3, False, 1, "sync"], "r1": [3, True, -1, "sync"], "r2": [3, False, 5, "sync"], "r3": [3, False, 2, "sync"]},
+              "fsms": {},
+              "stmts": [["assign", "comb", ["slice", ["cat", [sg("c0", 4), sg("c1", 4), sg("c2", 4, True)]], 3, 11], ["cat", [sg("i0", 4), sg("i1", 4, True)]]],
+                        ["if", [[["index", sg("i0", 4), 0],
+                                 [["assign", "sync", ["slice", ["cat", [sg("r0", 3), sg("r1", 3, True), sg("r2", 3), sg("r3", 3)]], 2, 11], ["cat", [sg("i1", 4, True), sg("i0", 4), sg("i0", 4)]]]]]], None]]})
     return P
 
 
